@@ -128,7 +128,7 @@ def build(run):
         counts = [polls_of(o) for o in g]
         allm = list(merges(list(counts)))
         exhaustive = True
-        cap = 260 if run.tier == "quick" else 6000
+        cap = 260 if run.tier == "quick" else 2500
         if len(allm) > cap:
             allm = rng.sample(allm, cap); exhaustive = False
         for kind in kinds:
